@@ -254,7 +254,7 @@ def obligations(tier, seed):
             obs.append(Ob(PROP, 'many_keys', dict(inner=inner, k=k), budget=b * 2, group='many live keys', bound=dict(live_keys=k, inner=C.show(INNERS[inner]), items='symbolic values, fixed schedule')))
         ls = (18,) if q else (18, 40, 260)
         if q and inner == 'tee_zip':
-            ls = (18, 40)
+            ls = (18, 40, 260)
         for l in ls:
             obs.append(Ob(PROP, 'many_lifetimes', dict(inner=inner, l=l), budget=b * 2 if l < 100 else b * 6, group='many lifetimes on one slot', bound=dict(lifetimes=l, inner=C.show(INNERS[inner]))))
     obs.append(Ob(PROP, 'confined', dict(parent='roll22', inner='tee_zip', n=4, _twin='reach'), budget=60, expect='refute'))
